@@ -2,6 +2,7 @@ SPECIFICATION Spec
 CONSTANTS BlockLists = {"b1", "b2"}
           AllowLists = {"a1"}
           AsIsC = FALSE
+          CosmC = FALSE
           Configs <- ConfHTTP
           ForcedBeh <- BehTiny
           SchedBeh <- BehTiny
